@@ -277,6 +277,64 @@ where
         }
     }
     vcore::tryo!(check(&b, "multi-perturbed", d).map(|_| ()));
+    // components that are equal for different reasons: one within epsilon only (small, of opposite signs), another within
+    // max_relative / max_ulps only (far too large for epsilon) - each relation is a conjunction over components of a
+    // disjunction over reasons, not the other way round. Both values are given, the ulps relation takes the real epsilon
+    let pairwise = |x: &[F], y: &[F], e: F, what: &str, d: &mut Draw| -> Result<(), Outcome> {
+        let (tx, ty) = (T::build(x), T::build(y));
+        let want = (
+            (0..n).all(|i| F::abs_diff_eq(&x[i], &y[i], e)),
+            (0..n).all(|i| F::relative_eq(&x[i], &y[i], e, rel)),
+            (0..n).all(|i| F::ulps_eq(&x[i], &y[i], e, ulps)),
+        );
+        let got = (tx.abs_diff_eq(&ty, e), tx.relative_eq(&ty, e, rel), tx.ulps_eq(&ty, e, ulps));
+        if d.recording() {
+            d.note(what, &(x.to_vec(), y.to_vec(), e));
+        }
+        ensure_r!(got == want, "mixed-reasons", "{} {}: (abs_diff_eq, relative_eq, ulps_eq) = {:?}, the conjunctions of the scalar relations are {:?}; a = {:?}, b = {:?}, epsilon = {:?}, max_relative = {:?}, max_ulps = {}", T::NAME, what, got, want, x, y, e, rel, ulps);
+        let sym = (ty.abs_diff_eq(&tx, e), ty.relative_eq(&tx, e, rel), ty.ulps_eq(&tx, e, ulps));
+        ensure_r!(sym == got, "not-symmetric", "{} {}: relation differs when the operands are exchanged: {:?} vs {:?}", T::NAME, what, got, sym);
+        let ne = (tx.abs_diff_ne(&ty, e), tx.relative_ne(&ty, e, rel), tx.ulps_ne(&ty, e, ulps));
+        ensure_r!(ne == (!got.0, !got.1, !got.2), "ne-is-not-eq", "{} {}: the _ne relations {:?} are not the negations of {:?}", T::NAME, what, ne, got);
+        Ok(())
+    };
+    if n >= 2 {
+        let i = d.below(n);
+        let j = (i + 1 + d.below(n - 1)) % n;
+        let third = F::of(0.3);
+        let big = eps / F::epsilon() * F::of(64.0);
+        for (name, bj) in [("mixed-reasons(epsilon, ulps)", big.steps(1 + d.below(ulps as usize) as u32)), ("mixed-reasons(epsilon, relative)", big * (one + rel * F::of(0.5)))] {
+            let (mut x, mut y) = (a.clone(), a.clone());
+            x[i] = eps * third;
+            y[i] = -(eps * third);
+            x[j] = big;
+            y[j] = bj;
+            vcore::tryo!(pairwise(&x, &y, eps, name, d));
+            // and with only one of the two in place (each reason alone)
+            let mut y1 = x.clone();
+            y1[i] = y[i];
+            vcore::tryo!(pairwise(&x, &y1, eps, name, d));
+            let mut y2 = x.clone();
+            y2[j] = y[j];
+            vcore::tryo!(pairwise(&x, &y2, eps, name, d));
+        }
+        // a zero of either sign against the other, with an epsilon that lets nothing through
+        let (mut x, mut y) = (a.clone(), a.clone());
+        x[i] = F::of(0.0);
+        y[i] = -F::of(0.0);
+        vcore::tryo!(pairwise(&x, &y, -eps, "signed zeros, negative epsilon", d));
+        vcore::tryo!(pairwise(&x, &y, eps, "signed zeros", d));
+        // an infinity shared by both values (equal in ulps, never within epsilon) next to a component that is within epsilon
+        if !T::NAME.contains("Basis") {
+            let (mut x, mut y) = (a.clone(), a.clone());
+            let inf = if d.bool() { F::infinity() } else { F::neg_infinity() };
+            x[i] = inf;
+            y[i] = inf;
+            y[j] = x[j] + eps * F::of(0.5);
+            vcore::tryo!(pairwise(&x, &y, eps, "shared infinity, another component within epsilon", d));
+        }
+        d.configs += 9;
+    }
     // non-finite components, on one side or on both: whatever the scalar relation says of an infinity or a NaN, the
     // compound relation is the conjunction of it (checked against a, and of the value against itself)
     let pos = d.below(n);
